@@ -15,18 +15,20 @@ RULE = (
     "built like the pinned tests' fixture: L in [1e-3, 1e2], N in 2..400, N_norm in [N, 40N], end "
     "spacing parameters over three decades, kinds wall.X / X.wall / X.X / wall.wall, methods sqrt / "
     "monotonic / linear, directly and through getSfuncFixedSpacing (so the run-time monotonic guard is "
-    "part of the unit). non-trivial = at least one end spacing parameter constrains the function; "
+    "part of the unit); per-leg stratum: four different target settings for the four legs, leg L must "
+    "behave as if the *_all_* settings had L's values (parameters and spacing function compared). "
+    "non-trivial = at least one end spacing parameter constrains the function; "
     "grid stratum: ny -> 2ny derived descriptors on orthogonal grids keep every original y-face."
 )
 
 
-def region(kind, ny, ny_total, options):
+def region(kind, ny, ny_total, options, name=None, nonorthogonal=None):
     from hypnotoad.core.equilibrium import Equilibrium, EquilibriumRegion, Point2D
 
     class MiniEq(Equilibrium):
         def __init__(self, settings):
             self.user_options = Equilibrium.user_options_factory.create(settings)
-            super().__init__({})
+            super().__init__(dict(nonorthogonal or {}))
 
     with quiet_stdio(), warnings.catch_warnings():
         warnings.simplefilter("ignore")
@@ -36,7 +38,7 @@ def region(kind, ny, ny_total, options):
         pts = [Point2D(i * 3.0 / (n - 1.0), i * 3.0 / (n - 1.0)) for i in range(n)]
         reg = EquilibriumRegion(
             equilibrium=eq,
-            name="inner_lower_divertor" if "wall" in kind else "core",
+            name=name or ("inner_lower_divertor" if "wall" in kind else "core"),
             nSegments=1,
             nx=[1],
             ny=ny,
@@ -260,6 +262,63 @@ def check_end_kinds(c):
     return fails
 
 
+LEGS = ("inner_lower", "inner_upper", "outer_upper", "outer_lower")
+LEG_PARAMS = (
+    ("user", "target_%s_poloidal_spacing_length"),
+    ("nonorth", "nonorthogonal_target_%s_poloidal_spacing_length"),
+    ("nonorth", "nonorthogonal_target_%s_poloidal_spacing_range"),
+    ("nonorth", "nonorthogonal_target_%s_poloidal_spacing_range_inner"),
+    ("nonorth", "nonorthogonal_target_%s_poloidal_spacing_range_outer"),
+)
+
+
+def check_per_leg(c):
+    """Every divertor leg uses the target settings requested for *that* leg: with four different
+    per-leg values, the parameters and the spacing function of leg L must be those obtained when the
+    `*_all_*` settings are given L's values (metamorphic: no knowledge of the normalisation needed)."""
+    base = {"orthogonal": c["orthogonal"], "poloidal_spacing_method": c["method"], "y_boundary_guards": 0,
+            "xpoint_poloidal_spacing_length": c["x_len"]}
+    per_user, per_non, all_user, all_non = dict(base), {}, dict(base), {}
+    for which, pat in LEG_PARAMS:
+        for leg in LEGS:
+            (per_user if which == "user" else per_non)[pat % leg] = c["values"][pat % "X"][leg]
+        (all_user if which == "user" else all_non)[pat % "all"] = c["values"][pat % "X"][c["leg"]]
+    ny, N, L = c["ny"], 2 * c["ny"], c["L"]
+    fails = []
+    with quiet_stdio(), numpy.errstate(all="ignore"), warnings.catch_warnings():
+        warnings.simplefilter("ignore")
+        import matplotlib.pyplot as plt
+
+        saved = plt.show
+        plt.show = lambda *a, **k: None
+        try:
+            name = c["leg"] + "_divertor"
+            ra = region(c["kind"], ny, c["ny_total"], per_user, name=name, nonorthogonal=per_non)
+            rb = region(c["kind"], ny, c["ny_total"], all_user, name=name, nonorthogonal=all_non)
+            sa, sb = ra.getSpacings(), rb.getSpacings()
+            diff = sorted(k for k in sa if sa[k] != sb.get(k))
+            if diff:
+                fails.append(
+                    ("C10/per-leg-target-setting-not-used/" + c["leg"], {"parameters": {k: [sa[k], sb.get(k)] for k in diff[:6]}, "kind": c["kind"]}, {})
+                )
+            try:
+                fa = ra.getSfuncFixedSpacing(N + 1, L)
+                fb = rb.getSfuncFixedSpacing(N + 1, L)
+            except ValueError:
+                c["_refused"] = True
+                return fails
+            idx = numpy.linspace(0.0, float(N), 4 * N + 1)
+            va, vb = numpy.asarray(fa(idx), dtype=float), numpy.asarray(fb(idx), dtype=float)
+            if not numpy.allclose(va, vb, rtol=1e-12, atol=1e-12 * L):
+                fails.append(
+                    ("C10/per-leg-spacing-function-differs/" + c["leg"], {"max_abs_diff": float(numpy.max(numpy.abs(va - vb))), "L": L, "kind": c["kind"], "method": c["method"]}, {})
+                )
+        finally:
+            plt.show = saved
+            plt.close("all")
+    return fails
+
+
 def strategies():
     from hypothesis import strategies as st
 
@@ -337,12 +396,34 @@ def strategies():
             c["nonorth_lengths"] = [draw(lg(-2, 0)), draw(lg(-2, 0))]
         return c
 
-    return direct(), xcont(), fixed(), endkinds()
+    @st.composite
+    def perleg(draw):
+        ny = draw(st.integers(3, 30))
+        vals = {}
+        for _, pat in LEG_PARAMS:
+            # four distinct values per setting, so that a mix-up of two legs is visible
+            base = draw(lg(-1.5, 0))
+            perm = draw(st.permutations([1.0, 1.7, 2.9, 4.3]))
+            vals[pat % "X"] = {leg: float("%.4g" % (base * f)) for leg, f in zip(LEGS, perm)}
+        orth = draw(st.booleans())
+        return {
+            "leg": draw(st.sampled_from(LEGS)),
+            "kind": draw(st.sampled_from(["wall.X", "X.wall"])),
+            "orthogonal": orth,
+            "method": draw(st.sampled_from(["sqrt", "monotonic", "linear"])),
+            "ny": ny,
+            "ny_total": ny * draw(st.sampled_from([1, 3, 6])),
+            "L": draw(lg(-1, 1)),
+            "x_len": draw(lg(-2, 0)),
+            "values": vals,
+        }
+
+    return direct(), xcont(), fixed(), endkinds(), perleg()
 
 
 def shard(kind, seed, n):
     res = ShardResult()
-    d, x, f, ek = strategies()
+    d, x, f, ek, pl = strategies()
     if kind == "direct":
         hyp_search(
             "C10", d, check_direct, seed=seed, max_examples=n, result=res,
@@ -352,6 +433,10 @@ def shard(kind, seed, n):
     elif kind == "xcont":
         hyp_search("C10", x, check_xpoint_continuity, seed=seed, max_examples=n, result=res,
                    nontrivial=lambda c: not c.get("_refused"), label=lambda c: ["xpoint-continuity/" + ("refused" if c.pop("_refused", False) else "checked")])
+    elif kind == "perleg":
+        hyp_search("C10", pl, check_per_leg, seed=seed, max_examples=n, result=res,
+                   nontrivial=lambda c: not c.get("_refused"),
+                   label=lambda c: ["per-leg/%s/%s/%s" % (c["leg"], "orth" if c["orthogonal"] else "nonorth", "refused" if c.pop("_refused", False) else "compared")])
     elif kind == "endkinds":
         hyp_search("C10", ek, check_end_kinds, seed=seed, max_examples=n, result=res,
                    nontrivial=lambda c: c.get("_n_ends", 0) >= 4,
@@ -422,6 +507,7 @@ def run(run):
     jobs += [dict(kind="fixed", seed=run.seed * 100 + 20 + i, n=100 if q else 2000) for i in range(6)]
     jobs += [dict(kind="xcont", seed=run.seed * 100 + 40 + i, n=100 if q else 1500) for i in range(2)]
     jobs += [dict(kind="endkinds", seed=run.seed * 100 + 60 + i, n=80 if q else 1200) for i in range(2)]
+    jobs += [dict(kind="perleg", seed=run.seed * 100 + 80 + i, n=60 if q else 1000) for i in range(2)]
     for r in run_shards("vf.props.c10", "shard", jobs):
         run.merge_shard(r)
     doubling_pairs(run)
@@ -446,6 +532,8 @@ def replay(run, payload):
         fails = check_xpoint_continuity(case)
     elif "end-spacing" in b:
         fails = check_end_kinds(case)
+    elif "per-leg" in b:
+        fails = check_per_leg(case)
     else:
         fails = check_direct(case)
     for bb, d, lab in fails:
